@@ -176,6 +176,44 @@ contract(SO + '::ScipyOptimizeDriver._con_val_func', ['C21'],
                     ('elif self._con_cache_x is None or not np.array_equal(self._con_cache_x, x_new):', 'elif self._con_cache_x is None:'), 'post')])
 
 
+# ---- _objfunc: the bookkeeping the two contracts around it ASSUME ("records x in _con_cache_x, refreshes _con_cache") is
+# proved here: after a successful evaluation _con_cache is what get_constraint_values returned AFTER the model ran at
+# x_new, and _con_cache_x is an OWN copy of x_new (scipy reuses and overwrites its x arrays).
+def _order_ghost(tag):
+    def g(it, env, res):
+        it.ctx.ghost['order'] = list(it.ctx.ghost.get('order', [])) + [tag]
+    return g
+
+
+contract(SO + '::ScipyOptimizeDriver._objfunc', ['C21'],
+         dict(self=Obj('ScipyOptimizeDriver', _con_cache=OpaqueT('old_cache'), _con_cache_x=OneOf(None, Arr('nx')), _exc_info=None, iter_count=Int(0, None),
+                       _problem=Callable(Obj('Problem', model=Obj('Group', _relevance=OpaqueT('relevance'), comm=OpaqueT('comm')))),
+                       _vectors=DictT({'design_var': OpaqueT('dv_vec')})),
+              x_new=Arr('nx')),
+         ensures=['self._con_cache_x is not None and len(self._con_cache_x) == nx and all(self._con_cache_x[i] == x_new[i] for i in range(nx))',
+                  'not shares_memory(self._con_cache_x, x_new)',
+                  "same_object(self._con_cache, ghost('cons_returned'))",
+                  # order of events: the design variables are set from x_new, then the model runs, then the responses are read
+                  "ghost('order') == ['set_data', 'set_design_vars', 'run', 'objective', 'constraints']",
+                  'self.iter_count == old(self.iter_count) + 1',
+                  'all(x_new[i] == old(x_new[i]) for i in range(nx))'],
+         modifies=['self._con_cache', 'self._con_cache_x', 'self.iter_count'],
+         ghost_init={'order': [], 'cons_returned': None},
+         assumed={"dv_vec.set_data": Assumed(ghost=_order_ghost('set_data'), requires=['same_object(arg0, x_new)'], note='OptimizerVector.set_data(x, driver_scaling=True): copies x into the design-variable vector'),
+                  'self._set_design_vars': Assumed(ghost=_order_ghost('set_design_vars'), note='pushes the design-variable vector into the model'),
+                  'with RecordingDebugging': (Assumed(), Assumed()),
+                  'model.comm.Bcast': Assumed(note='MPI broadcast of x_new from rank 0 (single process: the array is unchanged)'),
+                  "with model._relevance.nonlinear_active": (Assumed(), Assumed()),
+                  'self._run_solve_nonlinear': Assumed(ghost=_order_ghost('run'), note='runs the model'),
+                  'self._get_name': Assumed(returns=OpaqueT('name')),
+                  'self.get_objective_values': Assumed(returns=DictT({'f': Real()}), ghost=_order_ghost('objective')),
+                  'self.get_constraint_values': Assumed(returns=OpaqueT('cons'), ghost=lambda it, env, res: (it.ctx.ghost.__setitem__('cons_returned', res), it.ctx.ghost.__setitem__('order', list(it.ctx.ghost.get('order', [])) + ['constraints'])),
+                                                        note='constraint values of the model as it is now')},
+         name=SO + '::ScipyOptimizeDriver._objfunc', defs={'opaque_classes': ['RecordingDebugging']},
+         canaries=[('x recorded by reference instead of by copy', ('self._con_cache_x = np.array(x_new, copy=True)', 'self._con_cache_x = x_new'), 'post'),
+                   ('constraints read before the model is run', ("            with RecordingDebugging(self._get_name(), self.iter_count, self):", "            self._con_cache = self.get_constraint_values()\n            with RecordingDebugging(self._get_name(), self.iter_count, self):"), 'post')])
+
+
 # ---- _gradfunc: the gradient belongs to the point scipy asked about, and is scipy's to keep ----------------------
 # Two defects repaired in /repo: (1) trust-constr asks for the gradient at a new point BEFORE the objective, and the
 # model was then linearized at the previous point; (2) the returned row was a view of the total-jacobian array that
